@@ -112,9 +112,13 @@ def checkedRemEuclid (a b : Int64) : Option Int64 :=
   else if a = Int64.minValue ∧ b = -1 then none
   else some (remEuclid a b)
 
-/-- `i64::checked_pow(self, exp: u32)` by contract: the exact power when it is representable. -/
+/-- `i64::checked_pow(self, exp: u32)` by contract: the exact power when it is representable.
+The first test only keeps the function executable (a base of absolute value ≥ 2 to a power
+≥ 64 is never representable, `IntOps.pow_not_fits`, and would be a number of up to 2^32 bits);
+`IntOps.checkedPow_spec` proves it redundant. -/
 def checkedPow (a : Int64) (n : Nat) : Option Int64 :=
-  if fits (a.toInt ^ n) then some (Int64.ofInt (a.toInt ^ n)) else none
+  if 64 ≤ n ∧ 2 ≤ a.toInt.natAbs then none
+  else if fits (a.toInt ^ n) then some (Int64.ofInt (a.toInt ^ n)) else none
 
 /-- `u32::MAX as i64`. -/
 def u32Max : Int64 := 4294967295
